@@ -170,7 +170,8 @@ class Interp(HeapMixin, OpsMixin, StmtMixin, CallMixin):
                     r.val = z3.Array(name + "#val", ks, self.sort_of(ty[2]))
                 return r
             ref = self.sym_ref(name, "dict", None, mk)
-            run.assume(z3.Int(name + "#size") >= 0)
+            sz = z3.Int(name + "#size")
+            run.assume(sz >= 0)
             return ref
         if k == "set":
             def mk():
@@ -181,8 +182,8 @@ class Interp(HeapMixin, OpsMixin, StmtMixin, CallMixin):
             run.assume(sz >= 0)
             es = self.sort_of(ty[1])
             dom = z3.Array(name + "#dom", es, z3.BoolSort())
-            x = z3.Const("x!mem", es)
             w = z3.Const(name + "#witness", es)
+            x = z3.Const("x!mem", es)
             run.assume(z3.ForAll([x], z3.Implies(z3.Select(dom, x), sz > 0)))      # emptiness agrees with membership
             run.assume(z3.Implies(sz > 0, z3.Select(dom, w)))
             return ref
